@@ -26,6 +26,13 @@ class C02(F.Spec):
         n = 300 if tier == "quick" else 5000
         for i in range(n):
             yield self.gen(rng, i)
+        # the out buffer filled to within a few bytes of its limit: a frame whose header and data still fit but whose end tag does
+        # not (sizes swept byte by byte around that point, behind a first frame of the maximum size that is partly drained)
+        first = bytes((7 * k + 3) & 255 for k in range(MAXD))
+        for n2 in (range(712, 736) if tier == "quick" else range(690, 760)):
+            pl = bytes((11 * k + n2) & 255 for k in range(n2))
+            ops = ["call 60 " + first.hex(), "tick", "call 60 " + pl.hex()] + ["tick"] * 14
+            yield F.Case("brim%d" % n2, ops, {"mode": "brim", "tags": ["mode:brim"]})
 
     def gen(self, rng, i):
         ops = []
@@ -51,6 +58,17 @@ class C02(F.Spec):
             else:
                 n = rng.choice([0, 1, 8, 100, 233, 238, 256, 500, 512, MAXD, MAXD + 1])
             pl = bytes(rng.getrandbits(8) for _ in range(n))
+            if rng.random() < .2:
+                # a well-formed message of a call the firmware issues through a typed sender (the driver then uses that sender):
+                # extended value (channel, type, size, value), channel value (channel + 8 bytes), set-value result
+                k = rng.choice(["ext", "ext", "val", "res"])
+                if k == "ext":
+                    sz = rng.choice([1, 4, 19, 100, 255, 256])
+                    cid, pl = 105, bytes([rng.randrange(8), rng.choice([40, 50, 51, 60])]) + struct.pack("<I", sz) + bytes(rng.getrandbits(8) for _ in range(sz))
+                elif k == "val":
+                    cid, pl = 100, bytes([rng.randrange(8)]) + bytes(rng.getrandbits(8) for _ in range(8))
+                else:
+                    cid, pl = 120, bytes([rng.randrange(8)]) + struct.pack("<i", rng.randint(1, 1 << 20)) + bytes([rng.choice([0, 1])])
             ops.append("call %d %s" % (cid, pl.hex() if pl else "-"))
             for _ in range(rng.choice([0, 0, 1, 1, 2, 3, 8])):
                 ops.append("tick")
